@@ -203,9 +203,40 @@ def rule_select(ctx):
     ctx.check('select', 'keyed-by-record-height', keyed_by_height, cs, 'map key = %s' % key)
 
 
+def rule_gap(ctx):
+    """the delivered sequence is contiguous: a height for which the fetch has no block ends the delivery loop — it is
+    never skipped (a block stored beyond a gap does not build on the block delivered before it)"""
+    import c02
+    prog = ctx.prog
+    (b, h, lb, back, hits), vs, reach = c02.find_driver_loop(ctx)
+    ctx.touch(b)
+    fetch = [cs for cs in b.calls if cs.bb in lb and mir.method_name(cs.name) == 'get_block']
+    if len(fetch) != 1:
+        raise Unrecognised('gap', 'block fetch call in the driver loop not found (%d)' % len(fetch))
+    fe = mir.strip_sites(b.call_expr(fetch[0]))
+    none_edges = []
+    for (src, dst), fs in b.edge_facts().items():
+        if b.edge_infeasible(src, dst):
+            continue
+        for f in fs:
+            if f[0] == 'is' and f[2] == ('None',):
+                subj = mir.strip_sites(mir.peel(f[1], calls=False))
+                if subj == fe:
+                    none_edges.append((src, dst))
+    ctx.check('gap', 'no-block-edge-found', len(none_edges) >= 1, fetch[0], 'the loop distinguishes "no block at this height" (%d edge(s))' % len(none_edges))
+    for src, dst in none_edges:
+        # from the None edge the loop header must not be reachable again
+        again = h in b.reach_from(dst) if dst in lb else False
+        ctx.check('gap', 'missing-height-ends-delivery', not again, (b, dst), 'a height without a block leaves the loop',
+                  bad_detail='after a height without a block the loop continues with the next height: blocks stored beyond a gap are delivered although they do not build on the previous one')
+    # and every delivered block is the one fetched for the loop's current height (C02.asc covers the height argument)
+
+
 def run(ctx):
     ctx.trusted += ['Bitcoin Core BlockStatus bit assignment (chain.h)', 'rusty-leveldb iteration order = key order']
     ctx.guard('status', rule_status)
     ctx.guard('select', rule_select)
+    ctx.guard('gap', rule_gap)
     ctx.floor('status', 4)
     ctx.floor('select', 2)
+    ctx.floor('gap', 2)
